@@ -407,6 +407,13 @@ func runC02(a vh.Args, o *vh.Oracle, r *vh.Result) error {
 		if err := readJSON(a.Replay, &c); err != nil {
 			return err
 		}
+		if c.Kind == "flags" {
+			var fc c02FlagsCase
+			if err := readJSON(a.Replay, &fc); err != nil {
+				return err
+			}
+			return c02FlagsOne(a, o, r, &fc)
+		}
 		if c.Kind == "par" {
 			return c02Par(a, o, r, &c, 300)
 		}
@@ -424,6 +431,13 @@ func runC02(a vh.Args, o *vh.Oracle, r *vh.Result) error {
 	}
 	rng := vh.NewRand(a.Seed)
 	if err := c02DiscSweep(o, r, rng, 3000); err != nil {
+		return err
+	}
+	nfl := 400
+	if a.Tier == "thorough" {
+		nfl = 6000
+	}
+	if err := c02Flags(a, o, r, rng, nfl); err != nil {
 		return err
 	}
 	nseq, npar := 150, 320
